@@ -2,6 +2,7 @@ package main
 
 import (
 	"fmt"
+	"go/token"
 	"sort"
 	"strings"
 
@@ -207,5 +208,145 @@ func ruleC09ErrorSites(c *Ctx) {
 	}
 	if n < 20 {
 		c.Unknown("c09.errors-propagate", "selector.go", "-", fmt.Sprintf("only %d error-returning call sites found in selector.go (at least 20 confirmed by reading)", n))
+	}
+}
+
+func init() { register("C19", ruleC19RaiseFails) }
+
+// alwaysError: every return of fn yields a non-nil error: a freshly built one (fmt.Errorf, errors.New, a sentinel's
+// Extend), a boxed concrete value, the error a successful type assertion found inside a value, or the result of a
+// module function for which the same holds. A nil constant, or an error that a path knows to be nil, does not qualify.
+func alwaysError(fn *ssa.Function, depth int) (bool, string) {
+	ei := errIdx(fn)
+	if ei < 0 || len(fn.Blocks) == 0 || depth > 3 {
+		return false, "no error result"
+	}
+	ok, why := true, ""
+	var good func(v ssa.Value, d int) bool
+	good = func(v ssa.Value, d int) bool {
+		if d > 5 {
+			return false
+		}
+		switch x := v.(type) {
+		case *ssa.Const:
+			return false
+		case *ssa.MakeInterface:
+			return true
+		case *ssa.Extract:
+			if ta, isTA := x.Tuple.(*ssa.TypeAssert); isTA && x.Index == 0 {
+				// the value of a comma-ok assertion: usable as an error only on the ok path (checked by the error engine)
+				return ta.CommaOk
+			}
+			return false
+		case *ssa.Call:
+			name := calleeName(x.Common())
+			if strings.HasPrefix(name, "fmt.Errorf") || strings.HasPrefix(name, "errors.New") || strings.HasSuffix(name, ".Extend") {
+				return true
+			}
+			if cal := x.Common().StaticCallee(); cal != nil && strings.HasPrefix(funcPkgPath(cal), modPath) {
+				sub, _ := alwaysError(cal, depth+1)
+				return sub
+			}
+			return false
+		case *ssa.Phi:
+			for _, e := range x.Edges {
+				if !good(e, d+1) {
+					return false
+				}
+			}
+			return true
+		case *ssa.UnOp:
+			// a sentinel error variable of the module
+			if g, isG := x.X.(*ssa.Global); isG && x.Op == token.MUL && g.Pkg != nil && strings.HasPrefix(g.Pkg.Pkg.Path(), modPath) {
+				return true
+			}
+		}
+		return false
+	}
+	allInstrs(fn, func(_ *ssa.BasicBlock, in ssa.Instruction) {
+		r, isRet := in.(*ssa.Return)
+		if !isRet || ei >= len(r.Results) {
+			return
+		}
+		if !good(r.Results[ei], 0) {
+			ok, why = false, NewTB().Of(r.Results[ei]).String()
+		}
+	})
+	return ok, why
+}
+
+// ruleC19RaiseFails: RAISE fails whatever its message is.
+func ruleC19RaiseFails(c *Ctx) {
+	c.Doc("c19.raise-fails", "the functions registered as raise and raise_when end every path on which they fire with a non-nil error: the error is built on the spot (fmt.Errorf, errors.New, a sentinel's Extend) or comes from a module function every return of which is a non-nil error — a helper that maps a NULL message to a nil error turns `RAISE(missing_column)` into a NULL column and lets the query succeed")
+	reg := c.registry()
+	for _, name := range []string{"raise", "raise_when"} {
+		f := reg[name]
+		if f == nil {
+			c.Unknown("c19.raise-fails", "registered:"+name, "-", "anchor lost")
+			continue
+		}
+		c.Fn(c.P.funcKey(f))
+		paths, err := WalkFunc(f, WalkCfg{MaxVisits: 1})
+		if err != nil {
+			c.Unknown("c19.raise-fails", "registered:"+name, c.P.Pos(f.Pos()), err.Error())
+			continue
+		}
+		var why []string
+		fired := 0
+		for _, p := range paths {
+			if p.Exit != "return" || len(p.Ret) != 2 {
+				continue
+			}
+			// a path that passed the arity guard and the argument conversions (their errors are nil on this path)
+			passed := true
+			for k, v := range p.Asg {
+				if x, isN := isNilTest(p.KeyTerm[k]); isN && isErrorType(x) && !isTrueC(v) {
+					passed = false
+				}
+			}
+			if !passed {
+				continue
+			}
+			if name == "raise_when" {
+				// only the paths on which the condition holds
+				holds := false
+				for k, v := range p.Asg {
+					if kt := p.KeyTerm[k]; kt != nil && kt.Op == "load" && isTrueC(v) {
+						holds = true
+					}
+				}
+				if !holds {
+					continue
+				}
+			}
+			fired++
+			r := p.Ret[1]
+			if r.Nil {
+				why = append(why, name+" returns a nil error on a path on which it fires")
+				continue
+			}
+			if r.T == nil {
+				continue
+			}
+			if call, isCall := r.T.V.(*ssa.Call); isCall {
+				cn := calleeName(call.Common())
+				if strings.HasPrefix(cn, "fmt.Errorf") || strings.HasPrefix(cn, "errors.New") || strings.HasSuffix(cn, ".Extend") {
+					continue
+				}
+				if cal := call.Common().StaticCallee(); cal != nil && strings.HasPrefix(funcPkgPath(cal), modPath) {
+					if okE, w := alwaysError(cal, 0); !okE {
+						why = append(why, name+" takes its error from "+funcName(cal)+", which can return "+w+": for some message (NULL) nothing is raised and the query succeeds")
+					}
+					continue
+				}
+			}
+			if r.T.Op == "const" {
+				why = append(why, name+" returns the error "+r.T.String())
+			}
+		}
+		if fired == 0 {
+			why = append(why, "no path on which "+name+" fires")
+		}
+		c.Check(len(why) == 0, "c19.raise-fails", "registered:"+name, c.P.Pos(f.Pos()), fmt.Sprintf("%d firing paths end with a non-nil error", fired), strings.Join(uniq(why), "; "))
 	}
 }
